@@ -45,6 +45,13 @@ def main(argv=None):
             mod.pre_build(ctx)          # e.g. regenerate translator output from /repo's working tree
         ctx.note('proof obligations')
         ctx.coq_obligations(getattr(mod, 'EXTRA_TARGETS', ()))
+        if not ctx.quick:
+            from . import coq as _coq
+            ctx.note('coqchk (independent re-check of the compiled development)')
+            r = _coq.coqchk(pid)
+            ctx.checker_cmds.append(r['cmd'])
+            ctx.obligation('coqchk:' + pid, r['ok'], 'axioms: %r' % (r['axioms'],) if r['ok'] else r['tail'])
+            ctx.extra['coqchk_axioms'] = r['axioms']
         ctx.note('correspondence + monitors')
         mod.correspondence(ctx)
         if hasattr(mod, 'known'):
